@@ -222,10 +222,14 @@ def resolve_unwindset(crate, cwd, h, outdir):
     for pat, n in h.unwindset:
         hits = [l for l in loops if re.search(pat, l[0] + ": " + l[1])]
         if not hits:
-            raise RuntimeError("unwindset pattern %r matches no loop of %s" % (pat, h.name))
+            # the code may have been restructured: fall back to the harness-wide bound for whatever loops exist now
+            notes.append("%s -> no loop matches in the current build (harness-wide bound applies)" % pat)
+            continue
         for l in hits:
             pairs.append("%s:%d" % (l[0], n))
         notes.append("%s -> %d loop(s) bounded to %d" % (pat, len(hits), n))
+    if not pairs:
+        return None, notes
     return ["-Z", "unstable-options", "--cbmc-args", "--unwindset", ",".join(pairs)], notes
 
 
